@@ -1,5 +1,5 @@
 (* Reduce.v — C08.  FAITHFUL executable model of
-     include/nmtools/array/index/normalize_axis.hpp   (normalize_axis1 / normalize_axes)
+     include/nmtools/array/index/normalize_axis.hpp   (normalize_axis1 / normalize_axes / wrap_axis)
      include/nmtools/array/index/remove_dims.hpp      (remove_dims: result shape)
      include/nmtools/array/index/reduce.hpp           (reduction_slices: which source elements)
      include/nmtools/array/view/ufunc/reduce.hpp      (reducer_t, reduce_t::operator(), axis=None path)
@@ -35,6 +35,9 @@ Fixpoint normalize_axes (axes : list Z) (ndim : Z) : option (list Z) :=
       | _, _ => None
       end
   end.
+
+(* index::wrap_axis (normalize_axis.hpp:18): (axis < 0) ? ndim + axis : axis — no range check, no maybe *)
+Definition wrap_axis (ax ndim : Z) : Z := if ax <? 0 then ndim + ax else ax.
 
 (* [&](){ if constexpr (is_none_v<axis_t>) return m_axis; else return unwrap(normalize_axis(m_axis,src_dim)); }
    None here = unwrap of Nothing (the C++ dereferences an empty optional) *)
@@ -148,15 +151,16 @@ Definition reduce_at (a : list Z -> A) (s : list Z) (ax : axis_arg) (keepdims : 
       end
   end.
 
-(* accumulate_t::operator() (accumulate.hpp:208-260): the axis is compared as given, NOT normalised:
-     for i < dim: s = indices[i]; slices[i] = { i==axis ? 0 : s, s+1 } *)
+(* accumulate_t::operator() (accumulate.hpp:208-262):
+     m_axis = index::wrap_axis(axis, dim)      -- a negative axis counts from the end; NO range check
+     for i < dim: s = indices[i]; slices[i] = { i==m_axis ? 0 : s, s+1 } *)
 Fixpoint accumulate_slices (axis : Z) (idx : list Z) (i : Z) : list (Z * Z) :=
   match idx with
   | [] => []
   | v :: t => ((if i =? axis then 0 else v), v + 1) :: accumulate_slices axis t (i + 1)
   end.
-Definition accumulate_at (a : list Z -> A) (axis : Z) (idx : list Z) : option A :=
-  reducer (flat_slice a (accumulate_slices axis idx 0)) None.
+Definition accumulate_at (a : list Z -> A) (ndim axis : Z) (idx : list Z) : option A :=
+  reducer (flat_slice a (accumulate_slices (wrap_axis axis ndim) idx 0)) None.
 
 End Reduce.
 Arguments flat_slice {A}. Arguments reducer {A}. Arguments reduce_at {A}. Arguments accumulate_at {A}.
